@@ -29,9 +29,13 @@ type DFPNStats struct {
 }
 
 type DFPNSolver struct {
-	attacker tak.Color
-	table    dfpnTable
-	debug    int
+	// cfgAttacker is the configured attacker (NoColor: the side to
+	// move of each position proved); attacker is the one in effect
+	// for the current call to Prove.
+	cfgAttacker tak.Color
+	attacker    tak.Color
+	table       dfpnTable
+	debug       int
 
 	stats DFPNStats
 
@@ -111,7 +115,7 @@ func NewDFPN(cfg *DFPNConfig) *DFPNSolver {
 		cfg.TableMem = defaultTableMem
 	}
 	return &DFPNSolver{
-		attacker: cfg.Attacker,
+		cfgAttacker: cfg.Attacker,
 		table: dfpnTable{
 			entries: make([]entry, cfg.TableMem/int64(unsafe.Sizeof(entry{}))),
 		},
@@ -120,8 +124,17 @@ func NewDFPN(cfg *DFPNConfig) *DFPNSolver {
 }
 
 func (d *DFPNSolver) Prove(g *tak.Position) (ProofResult, DFPNStats) {
-	if d.attacker == tak.NoColor {
-		d.attacker = g.ToMove()
+	attacker := d.cfgAttacker
+	if attacker == tak.NoColor {
+		attacker = g.ToMove()
+	}
+	if attacker != d.attacker {
+		// Stored bounds award draws to the opponent of the attacker
+		// they were computed for.
+		for i := range d.table.entries {
+			d.table.entries[i] = entry{}
+		}
+		d.attacker = attacker
 	}
 	d.c = bitboard.Precompute(uint(g.Size()))
 	d.stats = DFPNStats{}
